@@ -290,10 +290,11 @@ static void c03_tools(Case& cs) {
   Chooser& c = cs.c;
   filegen::Opts fo;
   fo.max_records = 4 + cs.size / 4;
-  if (c.range(0, 9) == 0) { fo.pad_to = (size_t)c.range(66000, 200000); cs.st.cls("seed_file_spans_several_decoder_windows"); }
+  int first_kind = -1;   // edits whose effect needs input beyond the first decoder window get their share of the large files
+  if (c.range(0, 4) == 0) { fo.pad_to = (size_t)c.range(66000, 200000); cs.st.cls("seed_file_spans_several_decoder_windows"); if (c.coin()) first_kind = c.coin() ? 14 : 11; }
   filegen::Result fr = filegen::make(c, cs.scratch, fo);
   mut::Stats ms;
-  std::string bad = mut::mutate_file(c, fr.bytes, cs.size, ms);
+  std::string bad = mut::mutate_file(c, fr.bytes, cs.size, ms, first_kind);
   std::string path = cs.scratch + "/mut.cdns";
   write_file(path, bad);
   int tool = (int)c.range(0, 4);
